@@ -284,8 +284,6 @@ def _explore(out, tier, seed, facts, replay):
                 thr = rng.sample([0.0, 0.5, 1.0, 1.25, 2.0, 5.0], rng.randint(0, 3))
                 qua = rng.sample([0.0, 0.1, 0.25, 0.5, 0.75, 0.9, 1.0], rng.randint(0, 3))
                 pit = rng.random() < 0.6
-                if M == 1:
-                    qua = [x for x in qua if x == 1.0]     # interp1d needs two knots: outside the model
                 argv = [fin, fo] + (["-r", ",".join("%g" % t for t in thr)] if thr else []) + (["-q", ",".join("%g" % x for x in qua)] if qua else []) + (["-p"] if pit else [])
                 rep = {"script": "ens2prob", "argv": argv[2:], "format": fmt, "times": d["times"], "leads": d["leads"], "locs": d["locs"],
                        "obs": d["arrays"]["obs"].tolist(), "ensemble": d["ens"].tolist()}
